@@ -390,3 +390,62 @@ func evalReject(p *Prog, f *ssa.Function, atoms []Atom, spec resultSpec) guardRe
 	}
 	return guardResult{true, "failing outcome cannot reach a successful return", atoms[0].If.Cond.Pos()}
 }
+
+// evalGuardSinks: (i) every instance rejects; (ii') with the passing edges cut no sink instruction is
+// reachable (other successful returns that do not involve the sink are allowed).
+func evalGuardSinks(p *Prog, f *ssa.Function, atoms []Atom, spec resultSpec, sinks []ssa.Instruction) guardResult {
+	if len(atoms) == 0 {
+		return guardResult{false, "no such check exists in the function", f.Pos()}
+	}
+	r := evalReject(p, f, atoms, spec)
+	if !r.OK {
+		return r
+	}
+	cut := map[edge]bool{}
+	for _, a := range atoms {
+		b := a.If.Block()
+		cut[edge{b, b.Succs[a.PassSucc]}] = true
+	}
+	seen := reach([]*ssa.BasicBlock{f.Blocks[0]}, cut)
+	for _, s := range sinks {
+		if seen[s.Block()] {
+			return guardResult{false, "the guarded operation at " + p.pos(s.Pos()) + " can execute on a path that has not passed the test", s.Pos()}
+		}
+	}
+	return guardResult{true, fmt.Sprintf("%d instance(s) reject and guard the operation", len(atoms)), atoms[0].If.Cond.Pos()}
+}
+
+// evalGuardCut: like evalGuard but with additional edges removed from the graph first (paths the rule
+// deliberately does not cover, each justified by the caller).
+func evalGuardCut(p *Prog, f *ssa.Function, atoms []Atom, spec resultSpec, sinks []ssa.Instruction, pre map[edge]bool) guardResult {
+	if len(atoms) == 0 {
+		return guardResult{false, "no such check exists in the function", f.Pos()}
+	}
+	ex := successExits(f, spec)
+	cut := map[edge]bool{}
+	for e := range pre {
+		cut[e] = true
+	}
+	var rejecting []Atom
+	why := ""
+	var pos token.Pos
+	for _, a := range atoms {
+		b := a.If.Block()
+		fail := b.Succs[1-a.PassSucc]
+		e := edge{b, fail}
+		if ok, at := canReachSuccess(fail, &e, ex, pre); ok {
+			why = "the failing outcome of the test still reaches a successful return at " + p.pos(lastPos(at))
+			pos = a.If.Cond.Pos()
+			continue
+		}
+		rejecting = append(rejecting, a)
+		cut[edge{b, b.Succs[a.PassSucc]}] = true
+	}
+	if len(rejecting) == 0 {
+		return guardResult{false, why, pos}
+	}
+	if ok, at := canReachSuccess(f.Blocks[0], nil, ex, cut); ok {
+		return guardResult{false, "a successful return at " + p.pos(lastPos(at)) + " is reachable on a path that does not pass the test", rejecting[0].If.Cond.Pos()}
+	}
+	return guardResult{true, fmt.Sprintf("%d instance(s) reject and cannot be bypassed", len(rejecting)), rejecting[0].If.Cond.Pos()}
+}
